@@ -144,7 +144,7 @@ def main() -> int:
         for k, v in fam.items():
             specs += v[::step] if len(v) > 300 else v
     specs += families.random_specs(ck.seed + 3, 600 if ck.tier == 'quick' else 6000, 4)
-    specs += [s_ for s_, _clash in families.reuse_family()]  # accepted or not, whatever is handed out must share a type per reference
+    specs += [s_ for s_, _clash in families.reuse_family() + families.reuse_family_quantified()[::3]]  # accepted or not, whatever is handed out must share a type per reference
     specs = families.uniq(specs)
     items = [(s, 2) for i, s in enumerate(specs)]
     t0 = time.time()
